@@ -260,6 +260,21 @@ crash_handler(int sig)
 	if (n > 0) {
 		out_write(buf, (size_t) n);
 	}
+	// keep what this process observed so far (best effort)
+	if (pthread_mutex_trylock(&rep_mtx) == 0) {
+		for (int i = 0; i < n_stats; i++) {
+			out_printf("%c %s %ld\n", stats[i].is_max ? 'M' : 'S',
+			    stats[i].key, stats[i].val);
+		}
+		for (int b = 0; b < CLASS_BUCKETS; b++) {
+			for (class_node *cn = classes[b]; cn; cn = cn->next) {
+				out_printf("C %s\n", cn->s);
+			}
+		}
+		for (int i = 0; i < n_samples; i++) {
+			out_printf("X %s\n", samples[i]);
+		}
+	}
 	signal(sig, SIG_DFL);
 	raise(sig);
 }
@@ -316,6 +331,8 @@ vf_init(int argc, char **argv)
 	} else {
 		out_fd = dup(1);
 	}
+	// nni_panic prints with printf: make sure the message survives abort()
+	setvbuf(stdout, NULL, _IONBF, 0);
 	signal(SIGPIPE, SIG_IGN);
 	signal(SIGABRT, crash_handler);
 	watchdog_start();
@@ -1117,6 +1134,10 @@ vfh_warmup(void)
 	real_writev  = (writev_fn) dlsym(RTLD_NEXT, "writev");
 	real_readv   = (readv_fn) dlsym(RTLD_NEXT, "readv");
 	(void) vf_crc32("", 0);
+	const char *e = getenv("VF_AIO_TRACE");
+	if (e != NULL) {
+		aio_trace = atoi(e);
+	}
 }
 
 static bool
@@ -1368,15 +1389,11 @@ static struct {
 	void       *bt[10];
 } aio_ring[AIO_RING];
 static _Atomic unsigned long aio_ring_pos;
-static int                   aio_trace = -1;
+static int                   aio_trace = 1;
 
 static void
 aio_ring_record(int ev, const void *aio, int rv)
 {
-	if (aio_trace < 0) {
-		const char *e = getenv("VF_AIO_TRACE");
-		aio_trace     = e ? atoi(e) : 1;
-	}
 	if (!aio_trace) {
 		return;
 	}
